@@ -15,6 +15,7 @@ AlphaQ3 == H!AlphaQ3
 AlphaQ4 == H!AlphaQ4
 AlphaQ5 == H!AlphaQ5
 AlphaQ6 == H!AlphaQ6
+AlphaQ7 == H!AlphaQ7
 AlphaT  == H!AlphaT
 AlphaT2 == H!AlphaT2
 
